@@ -17,8 +17,9 @@ TEXT = ("I1: in commit every Ok(Some(_)) return is dominated by the single raw b
         "if the recomputed id equals the stored one (so index > every parent's index, hence acyclic). I3: get_anchors "
         "filters both of its passes on the same status constant Applied and removes exactly the parents of applied "
         "blocks. I4 = C02. I5: key <-> field mapping of Delta::to_json equals the field <- key mapping of the loader "
-        "(flow analysis through accumulating mutations), and get_delta returns an untransformed clone. Does not "
-        "decide graph invariants beyond what these imply.")
+        "(flow analysis through accumulating mutations), and get_delta returns an untransformed clone. I6: the loader drops a field when empty only if commit never writes "
+        "that field empty (a committed block reads back unchanged after a reload). Does not decide graph invariants "
+        "beyond what these imply.")
 TECHNIQUE = 'static analysis over rustc MIR: index formula and parent-set provenance in commit / loader, filter tables of get_anchors, writer/reader field tables of blocks'
 TRUSTED = ["rustc nightly MIR", "BTreeSet/BTreeMap semantics", "C02 (typestate) and C10/H2"]
 
@@ -30,6 +31,7 @@ def run(facts, res):
     res.rule("I2", "index rule: same constructors in writer and loader; constants max/0/+1 and 1; enforced on load")
     res.rule("I3", "get_anchors = applied blocks minus parents of applied blocks")
     res.rule("I5", "block metadata reads back unchanged: key<->field tables of writer and loader agree; get_delta returns a clone")
+    check_normal_form(facts, res, R)
     c = facts.body("melda::Melda::commit")
     if c is None:
         res.floor("I1", "commit anchor", 0, 1)
@@ -271,6 +273,75 @@ def _single_id_set(t, bw, c):
         return False
     kv = {y[1] for y in walk(arg_term(c, bw[0][1], 1, 12)) if y[0] == "var"}
     return bool(ev & kv)
+
+
+
+def check_normal_form(facts, res, R):
+    """I6: what commit writes reads back unchanged: the block loader drops a field when it is empty (parents, packs, changes
+    become None) only if commit never writes that field empty - otherwise get_delta() after a reload differs from what
+    was committed (commit information {} read back as absent)"""
+    from ..conds import lits_of
+    from ..common import contains_call
+    res.rule("I6", "the loader normalises (drops when empty) only fields commit never writes empty")
+    ld = R.body("loader")
+    cm = facts.body("melda::Melda::commit")
+    if ld is not None and cm is not None:
+        from ..flows import flow_of
+        lf = flow_of(ld)
+        du_l = du_of(ld)
+        # locals of the loader that end up in each Delta field
+        fields = {}
+        for blk in ld.blocks:
+            for st in blk.stmts:
+                if st.kind == "assign" and st.rv.kind == "agg" and st.rv.j.get("adt") == "melda::Delta":
+                    for n_, op in zip(st.rv.j["fields"], st.rv.operands()):
+                        if op.place is not None:
+                            fields[n_] = {x[1] for x in lf.sources([("l", op.place.local)]) if x[0] == "l"}
+        guarded = {}
+        for blk in ld.blocks:
+            if blk.cleanup:
+                continue
+            for st in blk.stmts:
+                if st.kind == "assign" and st.rv.kind == "agg" and st.rv.j.get("variant") == "Some" and not st.place.proj:
+                    for fname, locs in fields.items():
+                        if st.place.local in locs and fname in ("parents", "info", "packs", "changes"):
+                            g = [l for l in lits_of(ld, blk.idx, facts) if l.kind == "call" and callee_name(l.term) == "is_empty" and l.truth is False]
+                            # the emptiness test must be about the value stored
+                            vv = {x[1] for x in walk(du_l.rvalue_term(st.rv, 12)) if x[0] == "var"}
+                            g = [l for l in g if vv & {x[1] for x in walk(l.term[2][0]) if x[0] == "var"}]
+                            if g:
+                                guarded[fname] = True
+        # writer side: which fields does commit build as `if x.is_empty() { None } else { Some(x) }` (or from a value that cannot be empty)
+        du_c = du_of(cm)
+        cf = flow_of(cm)
+        writer_nonempty = set()
+        for blk in cm.blocks:
+            for st in blk.stmts:
+                if st.kind == "assign" and st.rv.kind == "agg" and st.rv.j.get("adt") == "melda::Delta":
+                    for n_, op in zip(st.rv.j["fields"], st.rv.operands()):
+                        if op.place is None:
+                            continue
+                        srcs = {x[1] for x in cf.sources([("l", op.place.local)]) if x[0] == "l"}
+                        somes = []
+                        for b2 in cm.blocks:
+                            if b2.cleanup:
+                                continue
+                            for s2 in b2.stmts:
+                                if s2.kind == "assign" and not s2.place.proj and s2.place.local in srcs and s2.rv.kind == "agg" and \
+                                        s2.rv.j.get("variant") == "Some" and "Option" in s2.rv.j.get("adt", "") and \
+                                        cm.local_ty(s2.place.local) == cm.local_ty(op.place.local):
+                                    somes.append(b2.idx)
+                        if somes and all(any(l.kind == "call" and callee_name(l.term) == "is_empty" and l.truth is False for l in lits_of(cm, sb, facts)) for sb in somes):
+                            writer_nonempty.add(n_)
+                        t = du_c.operand_term(op, 16)
+                        if contains_call(t, "map") and contains_call(t, R.name("pack_writer")):
+                            writer_nonempty.add(n_)   # Option<String> mapped to a one-element set
+        res.instance("I6", "loader drops empty %s; commit never writes empty %s" % (sorted(guarded), sorted(writer_nonempty)), ld.loc())
+        for f_ in sorted(guarded):
+            if f_ not in writer_nonempty:
+                res.violation("I6", "block-loader|normalises:%s" % f_,
+                              "load_raw_delta drops the block field `%s` when it is empty, but commit can write it empty: the committed block reads back "
+                              "differently (Some(empty) on the committing replica, None after a reload and on every other replica)" % f_, ld.loc())
 
 
 def thorough(res):
